@@ -1731,6 +1731,7 @@ class Model:
     # Think of something like NADPH / (NADP + NADPH) as a proxy for energy state
     ##########################################################################
 
+    @_invalidate_cache
     def add_readout(
         self,
         name: str,
@@ -1780,6 +1781,7 @@ class Model:
             return copy.deepcopy(self._readouts)
         return self._readouts
 
+    @_invalidate_cache
     def remove_readout(self, name: str) -> Self:
         """Remove a readout by its name.
 
